@@ -163,6 +163,40 @@ def run_case(case):
                 if pred[i] != exp:
                     bad("predict != classes_[proba >= 0.5]", "row %r predicted %r expected %r p=%r %s" % (
                         probes[i].tolist(), pred[i], exp, p.tolist(), desc))
+        # same-batch consistency, ties included: the rows whose marked path ends at node T must carry exactly the
+        # probabilities T's classifier gives to that very sub-batch (identical floats when the routing agrees)
+        bynode = {nd.index: nd for nd in nodes}
+        children = {nd.index: [c.index for c in (nd.above, nd.below) if c is not None] for nd in nodes}
+        ends = {}
+        chain_ok = True
+        for i in range(len(probes)):
+            marked = set(numpy.where(path[i] != 0)[0].tolist())
+            cur, seen_ = m.tree_.index, {m.tree_.index}
+            if cur not in marked:
+                chain_ok = False
+                break
+            while True:
+                nxt = [c for c in children[cur] if c in marked]
+                if len(nxt) > 1:
+                    chain_ok = False
+                    break
+                if not nxt:
+                    break
+                cur = nxt[0]
+                seen_.add(cur)
+            if not chain_ok or seen_ != marked:
+                chain_ok = False
+                break
+            ends.setdefault(cur, []).append(i)
+        if not chain_ok:
+            bad("decision_path does not mark a single root-to-node chain", desc)
+        else:
+            for t, rows_t in ends.items():
+                pt = bynode[t].estimator.predict_proba(probes[rows_t])
+                if numpy.abs(pt - proba[rows_t]).max() > 1e-13:
+                    bad("decision_path and predict_proba route a row differently (same batch)", "node %d rows %r: %r vs %r %s" % (
+                        t, rows_t[:4], pt[:2].tolist(), proba[rows_t][:2].tolist(), desc))
+                    break
         # batch vs single rows for the public methods
         sel = [i for i in range(0, len(probes), 5) if i not in ties]
         p1 = numpy.vstack([m.predict_proba(probes[i:i + 1]) for i in sel])
